@@ -87,6 +87,7 @@ func record(tr *vh.Trace, w *World, a Act, obs Obs, in *DgJ) {
 		ev["st"] = map[string]any{}
 	}
 	ev["woff"] = []int64{w.Woff[1], w.Woff[2]}
+	ev["snmp"] = w.Snmp()
 	tr.Add(ev)
 }
 
